@@ -157,7 +157,13 @@ func searchHandle(vi segment.VectorIndex, q []float32, k int64, eligible []uint6
 	if err != nil {
 		return nil, "search error: " + err.Error()
 	}
-	it := pl.Iterator(nil)
+	// with vecReuse on (sequential checks only) the caller recycles the iterator of its previous
+	// search, which it had left half read
+	var prev segment.VecPostingsIterator
+	if vecReuse {
+		prev = halfReadIt
+	}
+	it := pl.Iterator(prev)
 	for {
 		p, err := it.Next()
 		if err != nil {
@@ -168,8 +174,19 @@ func searchHandle(vi segment.VectorIndex, q []float32, k int64, eligible []uint6
 		}
 		hits = append(hits, vhit{p.Number(), math.Float32bits(p.Score())})
 	}
+	if vecReuse {
+		halfReadIt = pl.Iterator(nil)
+		if len(hits) > 1 {
+			halfReadIt.Next()
+		}
+	}
 	return hits, ""
 }
+
+var (
+	vecReuse   bool
+	halfReadIt segment.VecPostingsIterator
+)
 
 // judge compares a result with the specification, tolerating only what the statement leaves open
 // (which of several equally scored vectors make the cut).
@@ -270,6 +287,8 @@ func (s statsSink) Fetch() map[string]map[string]uint64 { return s }
 
 // vectorQueries runs a set of searches on one segment against the spec.
 func vectorQueries(c *ctx, seg segment.Segment, vspec sx.V, ndocs uint64, o vecOpts, nq int, what string) string {
+	vecReuse, halfReadIt = true, nil
+	defer func() { vecReuse, halfReadIt = false, nil }()
 	vs, ok := seg.(segment.VectorSegment)
 	if !ok {
 		return "segment does not implement VectorSegment"
@@ -391,7 +410,7 @@ func genVecBatch(c *ctx, nd int, id string, o vecOpts) zh.Batch {
 // ---------------- C14 ----------------
 
 func checkC14(c *ctx) {
-	c.Rule = "batches with vector fields (0-2 vector fields per document, 1-3 sub-vectors each, duplicate vectors across documents, L2 / dot-product / cosine, all three optimisation settings) built against the stand-in engine; searches x exclusion bitmaps (nil / random) x k (1-6 and larger than the number of vectors) x eligible sets (none, empty, all live documents, partial) x wrong dimension / fields without vectors; in memory and after persist+open; plus one field with >= 1000 vectors (clustered index: soundness only); every result pair must be the true score (engine's float expression) of an admissible vector of that document, at most k pairs, and for exact indexes precisely the k best (ties at the cut tolerated) as computed by the extracted spec_search; num_vectors statistic; non-trivial = field with >= 3 vectors and k < number of admissible vectors"
+	c.Rule = "batches with vector fields (0-2 vector fields per document, 1-3 sub-vectors each, duplicate vectors across documents, L2 / dot-product / cosine, all three optimisation settings) built against the stand-in engine; searches x exclusion bitmaps (nil / random) x k (1-6 and larger than the number of vectors) x eligible sets (none, empty, all live documents, partial) x wrong dimension / fields without vectors; every result iterator recycles the previous search's half-read iterator; in memory and after persist+open; plus one field with >= 1000 vectors (clustered index: soundness only); every result pair must be the true score (engine's float expression) of an admissible vector of that document, at most k pairs, and for exact indexes precisely the k best (ties at the cut tolerated) as computed by the extracted spec_search; num_vectors statistic; non-trivial = field with >= 3 vectors and k < number of admissible vectors"
 	c.Assumptions = append(c.Assumptions, "the vector engine is the pure-Go stand-in fakefaiss (real FAISS is not installable here): exact brute-force search, 'IVF' emulated; nothing is claimed about FAISS numerics or recall",
 		"eligible document sets do not contain excluded documents (the filter of a kNN query only yields live documents)")
 	n := c.n(50, 1500)
@@ -455,11 +474,67 @@ func checkC14(c *ctx) {
 	}
 }
 
+// largeVectorMerge: a merge whose output has >= 1000 surviving vectors (the rebuilt index is of the
+// clustered class): every result must still be the true score of a vector of the document it names.
+func largeVectorMerge(c *ctx) string {
+	o := genVecOpts(c)
+	o.nVecFs = 1
+	dims := o.dims["vec"]
+	mk := func(id string, n int) (*segEnt, sx.V, error) {
+		var b zh.Batch
+		for d := 0; d < n; d++ {
+			doc := zh.Doc{Fields: []zh.Field{zh.IDField(fmt.Sprintf("%s%04d", id, d))}}
+			doc.Fields = append(doc.Fields, zh.Field{Name: "vec", Typ: 'v', Vec: &zh.VecDef{Dims: dims, Sim: o.sim["vec"], Opt: o.opt["vec"], Data: randVec(c, dims)}})
+			b = append(b, doc)
+		}
+		e, err := newBuilt(c, b, 1026, false)
+		if err != nil {
+			return nil, sx.V{}, err
+		}
+		return e, vecSpec(c, b), nil
+	}
+	e1, v1, err := mk("m", 600)
+	if err != nil {
+		return "build failed: " + err.Error()
+	}
+	e2, v2, err := mk("n", 600)
+	if err != nil {
+		return "build failed: " + err.Error()
+	}
+	mc := &mergeCase{ins: []*segEnt{e1, e2}, drops: [][]uint64{{3, 77, 150, 301, 599}, {0, 10, 200, 400, 598}}, nilBM: []bool{false, false}, mode: 1026}
+	spec, maps := specMerge(c, mc)
+	mv := ask(c, sx.L(sx.N(zh.ReqMergeVec), sx.L(v1, v2), maps))
+	if _, bad := sx.IsErr(mv); bad {
+		mustH(fmt.Errorf("model rejected merge_vfields"))
+	}
+	r := runMerge(c, mc)
+	if r.err != nil || r.seg == nil {
+		return fmt.Sprintf("merge failed: %v", r.err)
+	}
+	defer r.seg.Close()
+	c.Case("large-vector-merge", true)
+	c.Count("merges_with_1000_or_more_surviving_vectors")
+	if bad := vectorQueries(c, r.seg, mv, spec.L[pNDocs].N, o, c.n(12, 100), "merge of 600 + 600 documents with 10 deletions (1190 surviving vectors, clustered index), re-opened"); bad != "" {
+		return bad
+	}
+	for _, e := range []*segEnt{e1, e2} {
+		if sbb, ok := e.seg.(*zap.SegmentBase); ok {
+			sbb.Close()
+		}
+	}
+	return ""
+}
+
 // ---------------- C15 ----------------
 
 func checkC15(c *ctx) {
-	c.Rule = "merge chains (depth <= 3) over segments with vector fields (fields present in only some inputs, inputs whose vectors are all deleted, built / opened / merged inputs) x deletion bitmaps {nil, empty, random, all}; the merged, re-opened segment is searched (exhaustive k and small k, with exclusions and filters) against the extracted merge_vfields (survivors' vectors under the new numbering); num_vectors statistic; a field whose vectors all died must have no index; engine accounting (every index created is released); non-trivial = >= 2 inputs with vectors and >= 2 surviving vectors"
+	c.Rule = "merge chains (depth <= 3) over segments with vector fields (fields present in only some inputs, inputs whose vectors are all deleted, as many deleted documents as the field has vectors, built / opened / merged inputs; one merge with 1190 surviving vectors) x deletion bitmaps {nil, empty, random, all}; the merged, re-opened segment is searched (exhaustive k and small k, with exclusions and filters) against the extracted merge_vfields (survivors' vectors under the new numbering); num_vectors statistic; a field whose vectors all died must have no index; engine accounting (every index created is released); non-trivial = >= 2 inputs with vectors and >= 2 surviving vectors"
 	c.Assumptions = append(c.Assumptions, "stand-in engine (see C14)")
+	if bad := largeVectorMerge(c); bad != "" {
+		c.Violation("C15 "+bad, false)
+		return
+	}
+	waitQuiescent()
 	rounds := c.n(45, 1200)
 	for i := 0; i < rounds; i++ {
 		o := genVecOpts(c)
@@ -507,6 +582,43 @@ func checkC15(c *ctx) {
 			}
 			retired = append(retired, consumed...)
 			if c.R.Chance(3) {
+				// as many deleted documents as the field has vectors in that input, while a document
+				// with a vector survives (documents without the field, or with several vectors, exist)
+				q := c.R.Intn(len(consumed))
+				e := consumed[q]
+				if vf, has := vfieldOf(e.v, "vec"); has {
+					nv := uint64(len(vf.L[4].L))
+					hasVec := map[uint64]bool{}
+					for _, dv := range vf.L[4].L {
+						hasVec[dv.L[0].N] = true
+					}
+					if nv > 0 && nv < e.n {
+						var without, with []uint64
+						for d := uint64(0); d < e.n; d++ {
+							if hasVec[d] {
+								with = append(with, d)
+							} else {
+								without = append(without, d)
+							}
+						}
+						for j := range without {
+							x := j + c.R.Intn(len(without)-j)
+							without[j], without[x] = without[x], without[j]
+						}
+						for j := range with {
+							x := j + c.R.Intn(len(with)-j)
+							with[j], with[x] = with[x], with[j]
+						}
+						cand := append(without, with[:len(with)-1]...) // one document with a vector always survives
+						if uint64(len(cand)) >= nv {
+							dr := append([]uint64(nil), cand[:nv]...)
+							sort.Slice(dr, func(a, b int) bool { return dr[a] < dr[b] })
+							mc.drops[q], mc.nilBM[q] = dr, false
+							c.Count("deleted_docs_equal_vector_count_cases")
+						}
+					}
+				}
+			} else if c.R.Chance(3) {
 				// delete every document that carries one of the vector fields, in every input
 				victim := vecFieldNames[c.R.Intn(len(vecFieldNames))]
 				for q, e := range consumed {
